@@ -16,7 +16,8 @@ RULE = ("cases are (kind, 32-byte key class, plaintext bytes, method) drawn from
         "through SecureField.to_python); a case is non-trivial when at least one oracle comparison was evaluated; "
         "distinct = distinct case content")
 REQUIRED = ("aes_oracle_decrypts", "aes_library_decrypts_oracle_output", "xor_oracle_checks", "malformed_rejected",
-            "iv_sets_checked", "wrong_key_checks", "stored_secret_shapes_rejected", "sessions_judged", "provider_objects_judged")
+            "iv_sets_checked", "wrong_key_checks", "stored_secret_shapes_rejected", "sessions_judged", "provider_objects_judged",
+            "rekeyed_objects_judged", "key_file_replaced_between_contexts")
 ASSUMPTIONS = ["the pure-Python AES-256-CBC/PKCS7 oracle (vf/aes_ref.py, self-tested on FIPS-197 C.3 and SP 800-38A "
                "F.2.5/F.2.6) is the 'standard implementation'",
                "base64 text containing characters outside the alphabet is not judged (Python's decoder ignores them)"]
@@ -53,8 +54,13 @@ def _plaintext(rng):
     return rng.randbytes(n)
 
 
+# every rejection the property allows is caught where it is provoked (malformed / stored kinds); anything else the
+# library raises on the way (opening a valid 32-byte key file, encrypting, decrypting a genuine ciphertext) is a violation
+ESCAPED_LIBRARY_ERROR = ("M-roundtrip", "unexpected-exception")
+
+
 def generate(rng, ctx):
-    kind = weighted(rng, [(6, "roundtrip"), (1, "fresh_iv"), (3, "malformed"), (2, "stored"), (2, "session"), (1.5, "provider")])
+    kind = weighted(rng, [(6, "roundtrip"), (1, "fresh_iv"), (3, "malformed"), (2, "stored"), (2, "session"), (1.5, "provider"), (1.5, "rekeyed")])
     case = {"kind": kind, "key": _key(rng), "pt": _plaintext(rng),
             "method": rng.choice(["aes", "xor", "best"]), "r": rng.getrandbits(32)}
     if kind == "fresh_iv":
@@ -62,6 +68,12 @@ def generate(rng, ctx):
     if kind == "session":
         case["steps"] = [[rng.choice(["enc", "enc", "dec"]), rng.choice(["aes", "xor", "best", "best"]), rng.choice(LENS)]
                          for _ in range(rng.randrange(2, 12))]
+    if kind == "rekeyed":
+        # several key contexts on ONE KeyFile object; the file is replaced between some of them; some contexts are left
+        # by an exception (a rejected ciphertext, an error of the caller)
+        case["blocks"] = [[rng.choice(["aes", "xor", "best"]), rng.choice(LENS), rng.random() < 0.5,
+                           rng.choice([None, None, "malformed", "caller-error", "unknown-method"])]
+                          for _ in range(rng.randrange(2, 7))]
     if kind == "malformed":
         case["what"] = rng.choice(["short", "unaligned", "empty", "method", "iv_only", "trunc_block", "extended"])
         case["bad_method"] = rng.choice(["rot13", "", "AES", "Xor", "aes ", None, 5, ["aes"], "best2", b"aes"])
@@ -235,6 +247,51 @@ def run(case, ctx, res):
                             return
         res.count("sessions_judged")
         res.nontrivial(kind, key.hex(), case["steps"], case["r"])
+
+    elif kind == "rekeyed":
+        SV = cc.encryption.SecureValue
+
+        class CallerError(Exception):
+            pass
+
+        cur = key
+        failed_before = False
+        for n, (m, ln, rekey, fail) in enumerate(case["blocks"]):
+            if rekey and n:
+                cur = bytes((b + 17 * n + case["r"]) % 256 for b in cur)
+                with open(path, "wb") as fp:
+                    fp.write(cur)
+                res.count("key_file_replaced_between_contexts")
+            data = bytes((case["r"] + 13 * n + j) % 256 for j in range(ln))
+            try:
+                with kf as k:
+                    sv = k.encrypt(data, method=m)
+                    res.count("encryptions")
+                    got = aes_ref.aes_decrypt(cur, sv.ciphertext) if sv.method == "aes" else aes_ref.xor_stream(cur, sv.ciphertext)
+                    res.count("aes_oracle_decrypts" if sv.method == "aes" else "xor_oracle_checks")
+                    if got != data:
+                        res.viol("M-aes-standard" if sv.method == "aes" else "M-xor", "rekeyed/" + ("after-failed-context" if failed_before else "plain"),
+                                 "context %d on one KeyFile object (key file replaced before it: %s, an earlier context was left by an "
+                                 "exception: %s): the output does not decrypt under the key that is in the file now" % (n, bool(rekey and n), failed_before))
+                        return
+                    if fail == "malformed":
+                        k.decrypt(SV("aes", sv.ciphertext[:7]))
+                    elif fail == "unknown-method":
+                        k.decrypt(SV("rot13", b"x" * 32))
+                    elif fail == "caller-error":
+                        raise CallerError()
+                if fail in ("malformed", "unknown-method"):
+                    res.viol("M-reject", "rekeyed/" + fail, "a malformed stored value was decrypted instead of rejected")
+                    return
+            except CallerError:
+                failed_before = True
+            except Exception:
+                if fail not in ("malformed", "unknown-method"):
+                    raise
+                failed_before = True
+                res.count("malformed_rejected")
+        res.count("rekeyed_objects_judged")
+        res.nontrivial(kind, key.hex(), case["blocks"], case["r"])
 
     elif kind == "malformed":
         what = case["what"]
